@@ -31,6 +31,7 @@ import (
 	"time"
 
 	"github.com/pingcap/failpoint"
+	"github.com/pingcap/kvproto/pkg/errorpb"
 	"github.com/pingcap/kvproto/pkg/kvrpcpb"
 	"github.com/pingcap/log"
 	"github.com/tikv/client-go/v2/config"
@@ -376,6 +377,23 @@ func (hj *hijack) SendRequest(ctx context.Context, addr string, req *tikvrpc.Req
 func (hj *hijack) pre(req *tikvrpc.Request) (*tikvrpc.Response, error) {
 	e := hj.env
 	switch req.Type {
+	case tikvrpc.CmdBufferBatchGet:
+		// the mock store has no BufferBatchGet: a minimal shim answers from the lock table (after the
+		// scheduled topology changes, with the region checks every command gets)
+		hj.mu.Lock()
+		hj.readRPCs++
+		n := hj.readRPCs
+		var todo []topoEvent
+		for _, ev := range hj.events {
+			if ev.at == n {
+				todo = append(todo, ev)
+			}
+		}
+		hj.mu.Unlock()
+		for _, ev := range todo {
+			e.applyTopo(ev)
+		}
+		return e.bufferBatchGet(req)
 	case tikvrpc.CmdGet, tikvrpc.CmdBatchGet, tikvrpc.CmdScan:
 		hj.mu.Lock()
 		// fault class: the failAt-th point read RPC from now on fails non-retryably
@@ -447,6 +465,39 @@ func (hj *hijack) pre(req *tikvrpc.Request) (*tikvrpc.Response, error) {
 		}
 	}
 	return nil, nil
+}
+
+// bufferBatchGet: BufferBatchGet as TiKV serves it — for each key the content of the lock held by the
+// transaction whose start ts is the request's version (flushed value; empty for a flushed delete)
+func (e *env) bufferBatchGet(req *tikvrpc.Request) (*tikvrpc.Response, error) {
+	r := req.BufferBatchGet()
+	reg, _ := e.cluster.GetRegion(req.Context.GetRegionId())
+	regionErr := func(er *errorpb.Error) (*tikvrpc.Response, error) {
+		return &tikvrpc.Response{Resp: &kvrpcpb.BufferBatchGetResponse{RegionError: er}}, nil
+	}
+	if reg == nil {
+		return regionErr(&errorpb.Error{RegionNotFound: &errorpb.RegionNotFound{RegionId: req.Context.GetRegionId()}})
+	}
+	if ep := req.Context.GetRegionEpoch(); ep.GetVersion() != reg.GetRegionEpoch().GetVersion() || ep.GetConfVer() != reg.GetRegionEpoch().GetConfVer() {
+		return regionErr(&errorpb.Error{EpochNotMatch: &errorpb.EpochNotMatch{}})
+	}
+	start, end := mocktikv.MvccKey(reg.StartKey).Raw(), mocktikv.MvccKey(reg.EndKey).Raw()
+	dbg := e.mvcc.(mocktikv.MVCCDebugger)
+	resp := &kvrpcpb.BufferBatchGetResponse{}
+	for _, k := range r.Keys {
+		if bytes.Compare(k, start) < 0 || (len(end) > 0 && bytes.Compare(k, end) >= 0) {
+			return regionErr(&errorpb.Error{KeyNotInRegion: &errorpb.KeyNotInRegion{Key: k, RegionId: reg.Id, StartKey: reg.StartKey, EndKey: reg.EndKey}})
+		}
+		if l := dbg.MvccGetByKey(k).Lock; l != nil && l.StartTs == r.Version {
+			switch l.Type {
+			case kvrpcpb.Op_Put:
+				resp.Pairs = append(resp.Pairs, &kvrpcpb.KvPair{Key: k, Value: l.ShortValue})
+			case kvrpcpb.Op_Del:
+				resp.Pairs = append(resp.Pairs, &kvrpcpb.KvPair{Key: k})
+			}
+		}
+	}
+	return &tikvrpc.Response{Resp: resp}, nil
 }
 
 // arm makes the n-th Get/BatchGet RPC from now fail (kind 0: context.Canceled, 1: fabricated abort)
@@ -865,6 +916,55 @@ func (e *env) reads(tier string) []string {
 	}
 	allKeys := append([][]byte{}, h.keys...)
 	allKeys = append(allKeys, []byte("absent"), []byte("a\x00\x01"))
+	// buffer tier of BatchGetWithTier, before anything resolves a lock: a transaction with leftover
+	// Put/Del locks plays the pipelined transaction that has flushed them
+	for i := range h.txns {
+		t := &h.txns[i]
+		if !(t.kind == kCommitPrim || t.kind == kRollbackPrim || t.kind == kExpired || t.kind == kPushable || t.kind == kLiveFinish) || r.Intn(2) == 0 {
+			continue
+		}
+		sp := e.store.GetSnapshot(t.start)
+		sp.SetPipelined(t.start)
+		ks := allKeys
+		if r.Intn(3) == 0 {
+			ks = pick(r, 1+r.Intn(len(allKeys)), allKeys)
+		}
+		var dump []string
+		dbg := e.mvcc.(mocktikv.MVCCDebugger)
+		for _, k := range h.keys {
+			if l := dbg.MvccGetByKey(k).Lock; l != nil {
+				dump = append(dump, fmt.Sprintf("%s:%s:%s:%s", hx(k), u64s(l.StartTs), l.Type.String(), hx(l.ShortValue)))
+			}
+		}
+		e.scheduleTopo(r)
+		res := guard(func() string {
+			m, err := sp.BatchGetWithTier(context.Background(), ks, txnsnapshot.BatchGetBufferTier, kv.BatchGetOptions{})
+			if err != nil {
+				return "err:" + errKind(err)
+			}
+			keys := make([]string, 0, len(m))
+			for k := range m {
+				keys = append(keys, k)
+			}
+			sort.Strings(keys)
+			parts := []string{}
+			for _, k := range keys {
+				parts = append(parts, hx([]byte(k))+"="+hx(m[k].Value))
+			}
+			if len(parts) == 0 {
+				return "-"
+			}
+			return strings.Join(parts, ",")
+		})
+		d := "-"
+		if len(dump) > 0 {
+			d = strings.Join(dump, ",")
+		}
+		lines = append(lines, fmt.Sprintf("BBUF\t%d\tbuffer-tier\t%s\t%s\t%s\t=>\t%s", hid, u64s(t.start), hxs(ks), d, res))
+		// the snapshot tier of the same pipelined snapshot: own locks are skipped, not resolved
+		bgetL("pipelined-own", sp, t.start, allKeys)
+		break
+	}
 	// the order of the first contact with the locks varies
 	order := r.Intn(4)
 	s1 := e.store.GetSnapshot(h.ts1)
